@@ -612,6 +612,21 @@ def walk(node, into_closures=True):
             yield from walk(x, into_closures)
 
 
+def walk_deep(crate, node, depth=3, _stack=()):
+    """walk() that also descends into the HIR bodies of the crate's non-exported, non-trait helper functions called
+    from the subtree (the HIR counterpart of the MIR splicing: helper extraction does not hide what a region does)."""
+    raw = getattr(crate, "raw_by_path", None) or crate.by_path
+    for n in walk(node):
+        yield n
+        if depth > 0 and n.get("k") in ("Call", "MethodCall"):
+            for nm in call_names(n):
+                f = raw.get(nm)
+                if f is None or nm in _stack or f.dk not in ("Fn", "AssocFn") or f.j.get("exported") or f.j.get("impl_trait") or not f.j.get("hir"):
+                    continue
+                yield from walk_deep(crate, f.j["hir"], depth - 1, _stack + (nm,))
+                break
+
+
 def find(node, k=None, pred=None, **attrs):
     out = []
     for n in walk(node):
